@@ -1,0 +1,87 @@
+// Copyright 2025 The Go MCP SDK Authors. All rights reserved.
+// Use of this source code is governed by an MIT-style
+// license that can be found in the LICENSE file.
+
+//go:build verif
+
+package jsonrpc2
+
+import (
+	"runtime"
+	"strings"
+)
+
+// This file is compiled only with the "verif" build tag. It exposes the two
+// observation points of Connection.updateInFlight to verification harnesses:
+// a (possibly blocking) gate before the state lock is taken, and a snapshot of
+// the in-flight state taken under the lock after the critical section (and the
+// close logic that follows it) has run.
+
+// VerifSnapshot is a scalar projection of a Connection's inFlightState.
+type VerifSnapshot struct {
+	Closing        bool `json:"closing"`
+	Reading        bool `json:"reading"`
+	ReadErr        bool `json:"readErr"`
+	WriteErr       bool `json:"writeErr"`
+	CloserNil      bool `json:"closerNil"`
+	Done           bool `json:"done"`
+	Out            int  `json:"out"`
+	OutNotif       int  `json:"outNotif"`
+	Incoming       int  `json:"incoming"`
+	InByID         int  `json:"inById"`
+	Queue          int  `json:"queue"`
+	HandlerRunning bool `json:"handlerRunning"`
+}
+
+var (
+	// VerifEnter, if non-nil, is called before updateInFlight takes the state
+	// lock. fn is the name of the function that called updateInFlight.
+	VerifEnter func(c *Connection, fn string)
+	// VerifSnap, if non-nil, is called under the state lock after the critical
+	// section has run.
+	VerifSnap func(c *Connection, fn string, s VerifSnapshot)
+)
+
+func verifCaller(skip int) string {
+	var pcs [1]uintptr
+	if runtime.Callers(skip, pcs[:]) == 0 {
+		return "?"
+	}
+	f, _ := runtime.CallersFrames(pcs[:]).Next()
+	name := f.Function
+	if i := strings.LastIndex(name, "jsonrpc2."); i >= 0 {
+		name = name[i+len("jsonrpc2."):]
+	}
+	return name
+}
+
+func verifEnter(c *Connection) {
+	if VerifEnter != nil {
+		VerifEnter(c, verifCaller(4))
+	}
+}
+
+func verifSnap(c *Connection, s *inFlightState) {
+	if VerifSnap == nil {
+		return
+	}
+	snap := VerifSnapshot{
+		Closing:        s.connClosing,
+		Reading:        s.reading,
+		ReadErr:        s.readErr != nil,
+		WriteErr:       s.writeErr != nil,
+		CloserNil:      s.closer == nil,
+		Out:            len(s.outgoingCalls),
+		OutNotif:       s.outgoingNotifications,
+		Incoming:       s.incoming,
+		InByID:         len(s.incomingByID),
+		Queue:          len(s.handlerQueue),
+		HandlerRunning: s.handlerRunning,
+	}
+	select {
+	case <-c.done:
+		snap.Done = true
+	default:
+	}
+	VerifSnap(c, verifCaller(5), snap)
+}
